@@ -104,7 +104,9 @@ func (g *dgen) validation(kind string, loc Loc) *spec.Validation {
 			v.MinLength = ip(1 + t.Draw("minlen", 2))
 			g.feat("val:min_items")
 		case 1:
-			v.MaxLength = ip(1 + t.Draw("maxlen", 4))
+			// at least 2: goa's example generator crashes on a collection with MaxLength
+			// below 2 (expr.NewLength computes max - rand%3 < 0; C01 by-product)
+			v.MaxLength = ip(2 + t.Draw("maxlen", 4))
 			g.feat("val:max_items")
 		default:
 			return nil
@@ -352,6 +354,7 @@ func (g *dgen) method(svc *spec.Service, idx int) *spec.Method {
 	} else {
 		g.feat("payload:none")
 	}
+	g.secure(svc, m, &path)
 	verb := "GET"
 	if hasBody {
 		verb = []string{"POST", "PUT", "PATCH"}[t.Draw("verb-body", 3)]
@@ -437,6 +440,7 @@ func (g *dgen) method(svc *spec.Service, idx int) *spec.Method {
 // GenDesign draws one design named name.
 func GenDesign(t *verifsim.Tape, name string) *spec.Design {
 	g := &dgen{t: t, d: &spec.Design{Name: name}, feats: map[string]bool{}}
+	g.security()
 	ns := 1 + t.Pick("nservices", 5, 2, 1)
 	for i := 0; i < ns; i++ {
 		s := &spec.Service{Name: []string{"alpha", "beta_svc", "gamma"}[i]}
@@ -459,6 +463,10 @@ func GenDesign(t *verifsim.Tape, name string) *spec.Design {
 			}
 			s.Errors = append(s.Errors, e)
 		}
+		if len(g.d.Schemes) > 0 && t.Draw("svc-security", 3) == 0 {
+			s.Security = g.requirements()
+			g.feat("security:service-level")
+		}
 		nm := 1 + t.Pick("nmethods", 3, 3, 2, 1)
 		for j := 0; j < nm; j++ {
 			s.Methods = append(s.Methods, g.method(s, j))
@@ -471,4 +479,197 @@ func GenDesign(t *verifsim.Tape, name string) *spec.Design {
 	}
 	sort.Strings(g.d.Features)
 	return g.d
+}
+
+
+// ---------------------------------------------------------------------------
+// security
+// ---------------------------------------------------------------------------
+
+var schemeKinds = []string{"basic", "apikey", "jwt", "oauth2"}
+
+// security draws the design's schemes (at most one per kind: a payload can
+// carry one credential attribute of each kind) and the API-level requirements.
+func (g *dgen) security() {
+	t := g.t
+	if t.Draw("has-security", 3) == 0 {
+		return
+	}
+	for i, k := range schemeKinds {
+		if t.Draw("scheme-"+k, 2) == 0 || (i == 3 && len(g.d.Schemes) == 0) {
+			sc := &spec.Scheme{Name: []string{"basic_auth", "api_key", "jwt", "oauth"}[i], Kind: k}
+			if k == "jwt" || k == "oauth2" {
+				sc.Scopes = []string{"api:read", "api:write", "admin"}[:1+t.Draw("nscopes", 3)]
+			}
+			g.d.Schemes = append(g.d.Schemes, sc)
+			g.feat("security:" + k)
+		}
+	}
+	if t.Draw("api-security", 3) == 0 {
+		g.d.Security = g.requirements()
+		g.feat("security:api-level")
+	}
+}
+
+// requirements draws 1-3 alternative requirements of 1-2 schemes each.
+func (g *dgen) requirements() []*spec.Requirement {
+	t := g.t
+	n := 1 + t.Pick("nreq", 4, 2, 1)
+	var out []*spec.Requirement
+	for i := 0; i < n; i++ {
+		r := &spec.Requirement{}
+		k := 1 + t.Pick("nschemes", 3, 1)
+		off := t.Draw("scheme-off", len(g.d.Schemes))
+		for j := 0; j < k && j < len(g.d.Schemes); j++ {
+			sc := g.d.Schemes[(off+j)%len(g.d.Schemes)]
+			r.Schemes = append(r.Schemes, sc.Name)
+			if len(sc.Scopes) > 0 && len(r.Scopes) == 0 && t.Draw("req-scopes", 2) == 0 {
+				r.Scopes = sc.Scopes[:1+t.Draw("nreqscopes", len(sc.Scopes))]
+			}
+		}
+		out = append(out, r)
+	}
+	if n > 1 {
+		g.feat("security:alternatives")
+	}
+	return out
+}
+
+// Effective returns the requirements that apply to a method.
+func Effective(d *spec.Design, s *spec.Service, m *spec.Method) []*spec.Requirement {
+	switch {
+	case m.NoSec:
+		return nil
+	case len(m.Security) > 0:
+		return m.Security
+	case len(s.Security) > 0:
+		return s.Security
+	}
+	return d.Security
+}
+
+func (d *dgen) scheme(name string) *spec.Scheme {
+	for _, sc := range d.d.Schemes {
+		if sc.Name == name {
+			return sc
+		}
+	}
+	return nil
+}
+
+// secure decides the method's own requirements and adds the credential
+// attributes and their HTTP mapping to the payload.
+func (g *dgen) secure(svc *spec.Service, m *spec.Method, path *string) {
+	t := g.t
+	if len(g.d.Schemes) == 0 {
+		return
+	}
+	switch t.Draw("method-security", 5) {
+	case 0:
+		m.Security = g.requirements()
+		g.feat("security:method-level")
+	case 1:
+		if len(svc.Security) > 0 || len(g.d.Security) > 0 {
+			m.NoSec = true
+			g.feat("security:no-security")
+		}
+	}
+	reqs := Effective(g.d, svc, m)
+	if len(reqs) == 0 {
+		return
+	}
+	if m.Payload == nil {
+		m.Payload = &spec.Attr{Type: &spec.Type{Kind: spec.Object}}
+	}
+	pt := g.d.Resolve(m.Payload.Type)
+	inAll := func(name string) bool {
+		for _, r := range reqs {
+			found := false
+			for _, s := range r.Schemes {
+				if s == name {
+					found = true
+				}
+			}
+			if !found {
+				return false
+			}
+		}
+		return true
+	}
+	used := map[string]bool{}
+	hasBasic := false
+	for _, r := range reqs {
+		for _, s := range r.Schemes {
+			if g.scheme(s).Kind == "basic" {
+				hasBasic = true
+			}
+		}
+	}
+	add := func(name, sec string, req bool) *spec.Attr {
+		for pt.Field(name) != nil {
+			name += "c"
+		}
+		a := &spec.Attr{Name: name, Type: &spec.Type{Kind: spec.String}, Sec: sec, Required: req}
+		pt.Fields = append(pt.Fields, a)
+		return a
+	}
+	for _, r := range reqs {
+		for _, sn := range r.Schemes {
+			if used[sn] {
+				continue
+			}
+			used[sn] = true
+			sc := g.scheme(sn)
+			req := inAll(sn) && t.Draw("cred-required", 2) == 0
+			switch sc.Kind {
+			case "basic":
+				add("username", "username", req)
+				add("password", "password", req)
+			case "apikey":
+				a := add("key", "apikey:"+sc.Name, req)
+				switch t.Draw("apikey-in", 3) {
+				case 0:
+					m.Params[a.Name] = "k"
+					g.feat("security:apikey-query")
+				case 1:
+					m.Headers[a.Name] = "X-API-Key"
+					g.feat("security:apikey-header")
+				default:
+					if hasBasic {
+						m.Headers[a.Name] = "X-API-Key"
+					} else {
+						m.Headers[a.Name] = "Authorization"
+						g.feat("security:apikey-authorization")
+					}
+				}
+			case "jwt", "oauth2":
+				sec, nm := "token", "token"
+				if sc.Kind == "oauth2" {
+					sec, nm = "accesstoken", "access_token"
+				}
+				a := add(nm, sec, req)
+				authFree := !hasBasic
+				for _, h := range m.Headers {
+					if h == "Authorization" {
+						authFree = false
+					}
+				}
+				switch t.Draw("token-in", 3) {
+				case 0:
+					if authFree {
+						m.Headers[a.Name] = "Authorization"
+						g.feat("security:bearer-authorization")
+					} else {
+						m.Headers[a.Name] = "X-" + nm
+					}
+				case 1:
+					m.Headers[a.Name] = "X-" + nm
+					g.feat("security:token-custom-header")
+				default:
+					m.Params[a.Name] = nm
+					g.feat("security:token-query")
+				}
+			}
+		}
+	}
 }
